@@ -67,10 +67,20 @@ impl KrpcSocket {
 
         socket.set_read_timeout(Some(MIN_POLL_INTERVAL))?;
 
+        #[cfg(not(mainline_verif))]
+        let inflight_requests = InflightRequests::new();
+        #[cfg(mainline_verif)]
+        let inflight_requests = {
+            // the harness may start the transaction id counter anywhere (wrap-around cases)
+            let mut inflight_requests = InflightRequests::new();
+            inflight_requests.next_tid = crate::verif::take_first_tid();
+            inflight_requests
+        };
+
         Ok(Self {
             socket,
             server_mode: config.server_mode,
-            inflight_requests: InflightRequests::new(),
+            inflight_requests,
             local_addr,
             poll_interval: MIN_POLL_INTERVAL,
 
